@@ -97,6 +97,7 @@ type refBuilder struct {
 	misuse          bool // a misuse happened since the last successful reset
 	misuseAfterEmit bool
 	dead            bool // the last Reset failed: there is no plan at all
+	everEmitted     bool // a plan was handed out before the last Reset: the builder must not share anything with it
 }
 
 func newRef(name string) *refBuilder {
@@ -107,7 +108,9 @@ func newRef(name string) *refBuilder {
 // apply returns true when the call is a misuse in the current state.
 func (r *refBuilder) apply(c bCall, n int) (misuse bool) {
 	if c == "reset" {
+		ever := r.everEmitted || r.emitted
 		*r = *newRef(fmt.Sprintf("plan%d", n))
+		r.everEmitted = ever
 		return false
 	}
 	if c == "reset:blank" {
@@ -223,6 +226,12 @@ func (r *refBuilder) apply(c bCall, n int) (misuse bool) {
 
 // key is the abstract state: everything the future behaviour can depend on.
 func (r *refBuilder) key() string {
+	if r.everEmitted {
+		// same abstract state, but plans handed out earlier are still in the caller's hands
+		r2 := *r
+		r2.everEmitted = false
+		return "E+" + r2.key()
+	}
 	if r.dead {
 		return "dead"
 	}
@@ -262,6 +271,13 @@ func checkBuilderSeq(seq []bCall) (rule, sig, msg string) {
 	}
 	ref := newRef("plan")
 	var firstErr error // the error value of the first misuse
+	// plans handed out so far, each with the directly constructed plan it equalled at that moment (the reference never
+	// touches a plan again once it was emitted): whatever is done to the builder later must not change them
+	type handedOut struct {
+		real, want *workflow.Plan
+		at         int
+	}
+	var emitted []handedOut
 	for i, c := range seq {
 		step = i
 		wasMisuse := ref.misuse
@@ -283,6 +299,12 @@ func checkBuilderSeq(seq []bCall) (rule, sig, msg string) {
 				if !reflect.DeepEqual(plan, ref.plan) {
 					return "plan-differs-from-direct-construction", planDiffClass(plan, ref.plan), fmt.Sprintf("%s: the emitted plan differs from the directly constructed one: %s", where, planDiffClass(plan, ref.plan))
 				}
+				for _, h := range emitted {
+					if h.real == plan {
+						return "emitted-plan-object-handed-out-twice", "plan", fmt.Sprintf("%s: Plan() returned the very object it had returned after call %d", where, h.at)
+					}
+				}
+				emitted = append(emitted, handedOut{real: plan, want: ref.plan, at: i})
 			}
 		default:
 			e := b.Err()
@@ -311,6 +333,11 @@ func checkBuilderSeq(seq []bCall) (rule, sig, msg string) {
 					return "first-error-not-sticky", "plan:" + stickyClass(ref), fmt.Sprintf("%s: Plan() returned %q, the first misuse was reported as %q", where, perr, firstErr)
 				}
 			}
+		}
+	}
+	for _, h := range emitted {
+		if !reflect.DeepEqual(h.real, h.want) {
+			return "emitted-plan-changed-by-later-calls", planDiffClass(h.real, h.want), fmt.Sprintf("after %v: the plan handed out by call %d no longer equals what it was then: %s", seq, h.at, planDiffClass(h.real, h.want))
 		}
 	}
 	// A correct, not yet emitted prefix must emit exactly the directly constructed plan.
